@@ -49,7 +49,7 @@ InitState == [side |-> "client", sc |-> 0, last |-> "Init", now |-> 0,
   \* connection
   ehdr |-> FALSE, eframes |-> 0, eopens |-> 0, ecloses |-> 0, ecloseErr |-> FALSE, eeof |-> FALSE,
   phdr |-> "none", popen |-> FALSE, pclose |-> FALSE, pcloseErr |-> "", pcloseHeard |-> FALSE, peof |-> FALSE, illegal |-> FALSE, garbage |-> FALSE,
-  oblClose |-> FALSE, openRet |-> "none", closeRet |-> "none", hook |-> FALSE, tol |-> 2, timedOut |-> FALSE, panics0 |-> -1, lidle |-> -1,
+  oblClose |-> FALSE, openRet |-> "none", closeRet |-> "none", hook |-> FALSE, tol |-> 2, timedOut |-> FALSE, panics0 |-> -1, lidle |-> -1, shutAfterIllegal |-> FALSE, illegalWhat |-> "", badAttach |-> "-", badAttachPending |-> FALSE,
   emfs |-> 512, pmfs |-> 512, echmax |-> 65535, pchmax |-> 65535, eidle |-> -1, pidle |-> -1, lastE |-> 0, lastP |-> 0, openAt |-> -1,
   ss |-> <<>>, ls |-> <<>>, pendCfg |-> <<>>, pendSess |-> <<>>]
 
@@ -85,6 +85,7 @@ Stuck(s, k) ==
 SetS(s, i, x) == [s EXCEPT !.ss[i] = x]
 SetL(s, k, y) == [s EXCEPT !.ls[k] = y]
 Illegal(s) == [s EXCEPT !.illegal = TRUE]
+IllegalW(s, w) == [s EXCEPT !.illegal = TRUE, !.illegalWhat = IF @ = "" THEN w ELSE @]
 
 \* clauses that apply to every frame the EUT writes
 EPre(s, r, l) ==
@@ -271,7 +272,9 @@ H_EFrame(s, r, l) ==
       \* any frame on a channel whose session the EUT has ended (and not begun again)
       chan == IF r.perf \in {"attach", "detach", "transfer", "flow", "disposition"} /\ SessByE(s, r.ch) > 0 /\ ~LiveE(s.ss[SessByE(s, r.ch)])
               THEN 0 ELSE 0
-  IN R(h.s, pre + h.f + chan)
+      \* a reaction to an illegal frame: the EUT shuts a scope down with an error (a plain close / end / detach issued by the application later does not count)
+      s9 == IF s.illegal /\ r.perf \in {"close", "end", "detach"} /\ r.f.err # "" THEN [h.s EXCEPT !.shutAfterIllegal = TRUE] ELSE h.s
+  IN R(s9, pre + h.f + chan)
 
 \* ---------------------------------------------------------------- peer frames
 
@@ -279,19 +282,22 @@ H_PBegin(s, r, l) ==
   LET f == r.f IN
   IF f.rch >= 0
   THEN LET i == LastIdx(s.ss, LAMBDA x : x.ech = f.rch /\ x.eBegun /\ ~x.pBegun) IN
-       IF i = 0 THEN R(Illegal(s), 0)
+       IF i = 0 THEN R(IllegalW(s, "begin-unknown-remote-channel"), 0)
        ELSE R(SetS(s, i, [s.ss[i] EXCEPT !.pch = r.ch, !.pBegun = TRUE, !.peerNII = s.ss[i].initOut, !.peerWin = f.iw, !.devWin = f.iw, !.pNoi = f.noi, !.framesInSince = 0]), 0)
-  ELSE IF \E i \in DOMAIN s.ss : s.ss[i].pch = r.ch /\ s.ss[i].pBegun /\ ~s.ss[i].pEnded THEN R(Illegal(s), 0)
+  ELSE IF \E i \in DOMAIN s.ss : s.ss[i].pch = r.ch /\ s.ss[i].pBegun /\ ~s.ss[i].pEnded THEN R(IllegalW(s, "begin-on-mapped-channel"), 0)
   ELSE R([s EXCEPT !.ss = Append(@, [NewSess EXCEPT !.pch = r.ch, !.pBegun = TRUE, !.peerWin = f.iw, !.devWin = f.iw, !.pNoi = f.noi])], 0)
 
 H_PEnd(s, r, l) ==
   LET i == SessByP(s, r.ch) IN
-  IF i = 0 \/ s.ss[i].pEnded THEN R(Illegal(s), 0)
+  IF i = 0 \/ s.ss[i].pEnded THEN R(IllegalW(s, "end-unmapped"), 0)
   ELSE R(SetS(s, i, [s.ss[i] EXCEPT !.pEnded = TRUE, !.pEndErr = r.f.err, !.pEndedBeforeE = ~s.ss[i].eEnded]), 0)
 
 H_PAttach(s, r, l) ==
   LET f == r.f i == SessByP(s, r.ch) IN
-  IF i = 0 \/ s.ss[i].pEnded THEN R(Illegal(s), 0) ELSE
+  IF i = 0 \/ s.ss[i].pEnded THEN R(IllegalW(s, "attach-unmapped"), 0) ELSE
+  \* an attach on a handle that is in use: a listener sees it only when the application accepts it; accepting it is the violation
+  IF \E k \in DOMAIN s.ls : s.ls[k].pch = r.ch /\ s.ls[k].ph = f.h /\ s.ls[k].pAtt /\ ~s.ls[k].pDet
+  THEN (IF s.side = "listener" THEN R([s EXCEPT !.badAttach = f.name, !.badAttachPending = TRUE], 0) ELSE R(IllegalW(s, "attach-handle-in-use"), 0)) ELSE
   LET eutSender == f.role = "r"
       ans == LastIdx(s.ls, LAMBDA y : y.ech = s.ss[i].ech /\ y.name = f.name /\ y.eutSender = eutSender /\ y.eAtt /\ ~y.pAtt /\ ~y.eDet)
       base == IF ans > 0 THEN s.ls[ans] ELSE NewLink
@@ -302,7 +308,7 @@ H_PAttach(s, r, l) ==
 
 H_PDetach(s, r, l) ==
   LET k == LinkByP(s, r.ch, r.f.h) IN
-  IF k = 0 \/ s.ls[k].pDet THEN R(Illegal(s), 0)
+  IF k = 0 \/ s.ls[k].pDet THEN R(IllegalW(s, "detach-unattached"), 0)
   ELSE R(SetL(s, k, [s.ls[k] EXCEPT !.pDet = TRUE, !.pClosed = r.f.closed, !.pDetErr = r.f.err, !.pDetFirst = ~s.ls[k].eDet, !.touched = FALSE]), 0)
 
 H_PFlow(s, r, l) ==
@@ -314,7 +320,8 @@ H_PFlow(s, r, l) ==
       s2 == SetS(s, i, x2)
   IN IF f.h < 0 THEN R(s2, 0) ELSE
   LET k == LinkByP(s, r.ch, f.h) IN
-  IF k = 0 \/ s.ls[k].pDet THEN R(Illegal(s2), 0) ELSE
+  IF k = 0 /\ s.side = "listener" THEN R(s2, 0) ELSE
+  IF k = 0 \/ s.ls[k].pDet THEN R(IllegalW(s2, "flow-unattached"), 0) ELSE
   LET y == s.ls[k] IN
   IF y.eutSender
   THEN R(SetL(s2, k, [y EXCEPT !.limit = (IF f.dc >= 0 THEN f.dc ELSE y.idc) + Max(f.lc, 0), !.drainOwed = f.drain, !.echoOwed = (@ \/ f.echo)]), 0)
@@ -328,7 +335,9 @@ H_PTransfer(s, r, l) ==
   IF i = 0 \/ s.ss[i].pEnded THEN R(Illegal(s), 0) ELSE
   LET s2 == SetS(s, i, [s.ss[i] EXCEPT !.framesInSince = @ + 1])
       k == LinkByP(s, r.ch, f.h) IN
-  IF k = 0 \/ s.ls[k].pDet \/ s.ls[k].eutSender THEN R(Illegal(s2), 0) ELSE
+  \* a listener keeps link frames for handles it has not accepted an attach for (the attach may still be waiting for the application)
+  IF k = 0 /\ s.side = "listener" THEN R(s2, 0) ELSE
+  IF k = 0 \/ s.ls[k].pDet \/ s.ls[k].eutSender THEN R(IllegalW(s2, "transfer-bad-handle"), 0) ELSE
   LET y == s.ls[k] IN
   IF ~y.pInDel
   THEN R(SetL(s2, k, [y EXCEPT !.inq = Append(@, NewIn(f, r.pl, y.dcR < y.limitR)), !.dcR = @ + 1, !.pInDel = (f.more /\ ~f.aborted), !.aborts = IF f.aborted THEN @ + 1 ELSE @]), 0)
@@ -346,7 +355,7 @@ H_PFrame(s, r, l) ==
   LET s1 == [s EXCEPT !.lastP = r.t] IN
   IF r.perf = "empty" THEN R(s1, 0)
   ELSE IF r.perf = "open" THEN
-       (IF s.popen \/ r.ch # 0 THEN R(Illegal(s1), 0)
+       (IF s.popen \/ r.ch # 0 THEN R(IllegalW(s1, "second-open"), 0)
         ELSE R([s1 EXCEPT !.popen = TRUE, !.pmfs = Max(r.f.mfs, 512), !.pchmax = r.f.chmax, !.pidle = r.f.idle, !.openAt = r.t], 0))
   ELSE IF ~s.popen THEN R([Illegal(s1) EXCEPT !.pclose = (@ \/ r.perf = "close")], 0)
   ELSE IF r.perf = "close" THEN R([s1 EXCEPT !.pclose = TRUE, !.pcloseErr = r.f.err, !.pcloseHeard = TRUE, !.oblClose = TRUE], 0)
@@ -439,6 +448,7 @@ H_ApiRet(s, r, l) ==
        IF i = 0 THEN R(s, 0) ELSE
        R(s, Chk("C13_TeardownWaits", ~r.res.ok \/ s.ss[i].pEnded \/ ~ConnUp(s), l, "end")
           + Chk("C13_PeerError", ~(s.ss[i].pEnded /\ s.ss[i].pEndErr # "") \/ (~r.res.ok /\ r.res.cond = s.ss[i].pEndErr), l, "end"))
+  ELSE IF r.op = "accept_link" /\ r.res.ok /\ s.badAttachPending THEN R([s EXCEPT !.badAttachPending = FALSE], Fail("C15_IllegalHandled", l, "attach-handle-in-use-accepted"))
   ELSE IF r.op \in {"attach_receiver", "accept_link"} THEN
        LET k == LinkByName(s, r.lname, FALSE) IN
        IF k = 0 \/ ~r.res.ok THEN R(s, 0) ELSE R(SetL(s, k, [s.ls[k] EXCEPT !.cfgActive = TRUE]), 0)
@@ -493,6 +503,9 @@ H_Quiesce(s, r, l) ==
        + Chk("C17_LocalTimeoutFires", ~(s.lidle > 0 /\ s.popen /\ s.eopens = 1 /\ s.phdr = "amqp" /\ ~s.garbage /\ r.t - Max(s.lastP, s.openAt) > s.lidle + 2 * s.tol + 2) \/ s.eeof \/ s.ecloses > 0, l, "")
        + Chk("C17_TimeoutReported", ~(s.timedOut) \/ s.eeof, l, "")
        + Chk("C15_NoPanic", s.panics0 < 0 \/ r.panics = s.panics0, l, "")
+       \* work and memory per step stay in proportion (CPU of the thread that runs every endpoint task; peak allocation growth)
+       + Chk("C15_Cpu", r.cpu_ms <= 2000, l, "")
+       + Chk("C15_Alloc", r.peak_kb <= 65536, l, "")
        + Chk("C17_Heartbeat", ~(s.pidle > 0 /\ ConnUp(s)) \/ r.t - s.lastE <= s.pidle + s.tol, l, "quiesce")
        \* automatic credit: with nothing held back by the application the sender must have credit to continue
        + Chk("C09_Replenished_Q", \A k \in DOMAIN s.ls : ~(ConnUp(s) /\ ~s.ls[k].eutSender /\ s.ls[k].creditMode > 0 /\ LinkLiveE(s.ls[k]) /\ s.ls[k].pAtt /\ ~s.ls[k].pDet
@@ -508,7 +521,7 @@ Step(s, r, l) ==
     CASE r.ev = "Init" -> R([InitState EXCEPT !.side = r.side], 0)
       [] r.ev = "EHeader" -> H_EHeader(s, r, l)
       [] r.ev = "EFrame" -> H_EFrame(s, r, l)
-      [] r.ev = "EEof" -> R([s EXCEPT !.eeof = TRUE, !.oblClose = FALSE], 0)
+      [] r.ev = "EEof" -> R([s EXCEPT !.eeof = TRUE, !.oblClose = FALSE, !.shutAfterIllegal = (@ \/ (s.illegal /\ s.ecloses = 0))], 0)
       [] r.ev = "EGarbage" -> R(s, Fail("C06_Garbage", l, ""))
       [] r.ev = "PHeader" -> H_PHeader(s, r, l)
       [] r.ev = "PFrame" -> H_PFrame(s, r, l)
@@ -518,6 +531,9 @@ Step(s, r, l) ==
       [] r.ev = "ApiCall" -> H_ApiCall(s, r, l)
       [] r.ev = "ApiRet" -> H_ApiRet(s, r, l)
       [] r.ev = "Quiesce" -> H_Quiesce(s, r, l)
+      [] r.ev = "End" -> R(s, Chk("C15_IllegalHandled", ~s.illegal \/ s.shutAfterIllegal, l, s.illegalWhat) + Chk("C15_NoHang", Len(r.pending) = 0 \/ ~(s.peof \/ s.pclose \/ s.eeof), l, "") + Chk("C15_NoPanic", r.panics = s.panics0 \/ s.panics0 < 0, l, "end")
+                              + Chk("C14_Completes", Len(r.pending) = 0 \/ ~(s.peof \/ s.pclose \/ s.eeof), l, ""))
+      [] r.ev = "Spin" -> R(s, Fail("C15_Quiesces", l, "spin"))
       [] r.ev = "Hook" -> R([s EXCEPT !.hook = (r.op = "arm")], 0)
       [] r.ev = "Advance" -> R([s EXCEPT !.tol = Max(@, r.step + 2)], 0)
       [] OTHER -> R(s, 0)
